@@ -26,6 +26,9 @@ pub fn jreal(x: f64) -> J {
     if x == f64::from_bits(0.25f64.to_bits() + 1) { return json!({"t": "real", "c": "q25n", "n": 0, "d": 1}); }
     if x == 9007199254740992.0 { return json!({"t": "real", "c": "p53", "n": 0, "d": 1}); }
     if x == 9007199254740994.0 { return json!({"t": "real", "c": "p53b", "n": 0, "d": 1}); }
+    if x == 1e19 { return json!({"t": "real", "c": "e19", "n": 0, "d": 1}); }
+    if x == -1e19 { return json!({"t": "real", "c": "ne19", "n": 0, "d": 1}); }
+    if x == 1e300 { return json!({"t": "real", "c": "e300", "n": 0, "d": 1}); }
     if x == 9223372036854775808.0 { return json!({"t": "real", "c": "p63", "n": 0, "d": 1}); }
     if x == -9223372036854775808.0 { return json!({"t": "real", "c": "n63", "n": 0, "d": 1}); }
     let mut d: i64 = 1;
@@ -75,6 +78,7 @@ pub fn real_of(v: &J) -> f64 {
         "q25n" => f64::from_bits(0.25f64.to_bits() + 1),
         "p53" => 9007199254740992.0, "p53b" => 9007199254740994.0,
         "p63" => 9223372036854775808.0, "n63" => -9223372036854775808.0,
+        "e19" => 1e19, "ne19" => -1e19, "e300" => 1e300,
         _ => v["n"].as_i64().unwrap() as f64 / v["d"].as_i64().unwrap() as f64
     }
 }
@@ -120,9 +124,12 @@ pub fn json_eq(a: &J, b: &J) -> bool {
     match (a, b) {
         (J::Number(x), J::Number(y)) => {
             if let (Some(i), Some(j)) = (x.as_i64(), y.as_i64()) { return i == j; }
+            // exact value of a number written as an integer (i64 / u64 form): it recovers a REAL only if it IS that REAL (2^63 written as 9223372036854775807 is another number)
+            let int_of = |n: &serde_json::Number| -> Option<i128> { n.as_i64().map(|i| i as i128).or(n.as_u64().map(|u| u as i128)) };
+            let exact = |i: i128, f: f64| f.fract() == 0.0 && f.abs() < 1.0e38 && (f as i128) == i;
             // an INT must be printed as an integer, a REAL may print integral values as 1.0
-            if x.is_i64() != y.is_i64() && (x.is_i64() || y.is_i64()) {
-                return x.as_f64() == y.as_f64() && y.is_f64();
+            if x.is_f64() != y.is_f64() {
+                return match (int_of(x), int_of(y)) { (Some(i), None) => y.is_f64() && exact(i, y.as_f64().unwrap()), _ => false };
             }
             x.as_f64() == y.as_f64()
         }
